@@ -36,6 +36,16 @@ Proof.
   exists s, tr. split; [reflexivity|]. vm_compute in E. inversion E; subst. reflexivity.
 Qed.
 
+(* the launch guard is tight: at the START of sequence 2 in that run, I = conc - 1 and f + I = tol + conc - 1 *)
+Definition run_tight_prefix : list act :=
+  rep 6 AMain ++ rep 7 (AWork 0) ++ rep 12 AMain ++ rep 2 (AWork 1) ++ [AWork 2].
+Example launch_guard_tight :
+  match exec c_tight (init c_tight) run_tight_prefix with
+  | Some (s, _) => Some (nth_error (wk s) 2, in_flight s, failed c_tight s, is_some (step c_tight s (AWork 2)))
+  | None => None
+  end = Some (Some WReady, 1%nat, 1, true).
+Proof. vm_compute. reflexivity. Qed.
+
 (* ---- scheduler-driven run: n = 4, conc = 2, tol = 1, sequences 1 and 3 fail ---- *)
 Definition c_demo := mk 4 2 1 [false; true; false; true] true.
 Definition choices : list nat :=
